@@ -1,5 +1,6 @@
 (* C15 — Loop-aware queries and circuit algebra agree with the unrolled program. *)
 From Coq Require Import List NArith.
+Require QCoords.
 Import ListNotations.
 Require Import Counts.
 Local Open Scope N_scope.
@@ -13,7 +14,13 @@ Proof. exact mul_saturate_spec. Qed.
    min(exact count of the unrolled instruction stream, 2^64 - 1) *)
 Theorem C15_counts_eq_unrolled_saturating : forall i, wf i -> sat i = N.min (exact i) MAX.
 Proof. exact counts_eq_unrolled_saturating. Qed.
-Print Assumptions C15_counts_eq_unrolled_saturating.
+(* get_final_qubit_coords / final_coord_shift: running a REPEAT body once and fast-forwarding coordinates and shift by
+   (repetitions - 1) gains gives the unrolled program's final shift and final qubit coordinates, for every program, nesting and
+   repetition count (QCoords.ffl is extracted and run against the implementation) *)
+Theorem C15_fast_forward_coords_is_unrolled :
+  forall (l : list QCoords.cmd) (st : QCoords.state), QCoords.steq (QCoords.ffl l st) (QCoords.execl l st).
+Proof. exact QCoords.ffl_is_unrolled. Qed.
+Print Assumptions C15_counts_eq_unrolled_saturating. Print Assumptions C15_fast_forward_coords_is_unrolled.
 
 Example C15_nonvacuous :
   let p := Repeat 9223372036854775808 [Repeat 9223372036854775808 [Op 1]] in
